@@ -239,6 +239,7 @@ def stateful_families():
         "signature": list(SIGNATURES),
         "softkw": [(None, q) for q in SOFT_KEYWORDS],
         "unsupported": [x for x in STATEFUL if x[0] in ("postgres", "tsql", "mysql", "oracle", "clickhouse") and "GENERATE_SERIES(1, 3)" != x[1][-21:]],
+        "errctx": list(ERRCTX),
     }
     return {k: v for k, v in fam.items() if v}
 
@@ -295,6 +296,15 @@ FAILING = [
     (None, "SELECT a FROM t WHERE b NOT BETWEEN"),
     ("mysql", "SELECT x BETWEEN"),
 ]
+# statements of the same shape with different names: an error is raised at the same offsets of a different text, so whatever a
+# reused component remembers about "the error at this position" (context excerpt, highlighted token) belongs to another input
+for _a, _t in (("a", "t1"), ("b", "t2"), ("c", "t3")):
+    FAILING += [(None, "SELECT %s FROM %s WHERE" % (_a, _t)), (None, "SELECT %s FROM %s WHERE %s = (" % (_a, _t, _a)), (None, "SELECT %s + FROM %s" % (_a, _t)),
+                (None, "SELECT CAST(%s AS) FROM %s" % (_a, _t))]
+ERRCTX = [x for x in FAILING if x[1].endswith((" t1", " t2", " t3", " t1 WHERE", " t2 WHERE", " t3 WHERE", "= ("))]
+# dialect strings the settings parser rejects: which complaint is raised must not depend on the process
+BAD_SETTINGS = ["duckdb, foo=1, bar=2", "hive, spark2, spark, databricks", "snowflake, normalization_strategy=lowercase, zzz=1, aaa=2, mmm=3", "mysql, normalization_strategy=nope",
+                "postgres, version=1, x=2, y=3", "nosuchdialect", "tsql, a, b, c, d"]
 
 _cache = {}
 
@@ -596,18 +606,26 @@ class _QG:
         return "%s %s %s" % (self.col("INT"), cmp_, self.subq("scalar", d))
 
 
-def gen_query(rng, depth=0, ctes=None):
+ALIAS_POOL = ["x", "x_2", "x_3", "y", "y_2", "q", "q_2", "z"]
+
+
+def gen_query(rng, depth=0, ctes=None, collide=None):
     """A random, qualifiable SELECT over SCHEMA: joins of every kind, derived tables and CTEs that themselves join,
     correlated subqueries whose predicates mention several outer columns, DNF filters, grouping, windows, set operations."""
     r = rng
     base = ["x", "y", "z", "w", "mixed"]
     ctes = dict(ctes or {})
+    if collide is None:
+        # alias vocabulary of the whole query: unique names per nesting level (t00, t10, ...), or a small pool shared by all
+        # levels - names that differ only in a trailing counter, as the optimizer's own renames produce - so that inner and
+        # outer scopes conflict when a derived table or CTE is merged into its parent
+        collide = r.random() < 0.35
     with_sql = ""
     if depth == 0 and r.random() < 0.3:
         parts = []
         for i in range(r.randrange(1, 3)):
             name = "c%d" % i
-            body, cols = gen_query(r, depth + 2, ctes), None
+            body, cols = gen_query(r, depth + 2, ctes, collide), None
             parts.append("%s AS (%s)" % (name, body[0]))
             ctes[name] = body[1]
         with_sql = "WITH " + ", ".join(parts) + " "
@@ -615,13 +633,15 @@ def gen_query(rng, depth=0, ctes=None):
     froms = []
     for i in range(r.choice([1, 1, 2, 2, 3]) if depth == 0 else r.choice([1, 1, 2])):
         al = "t%d%d" % (depth, i)
+        if collide:
+            al = r.choice([a_ for a_ in ALIAS_POOL if a_ not in visible])
         u = r.random()
         if ctes and u < 0.3:
             name = r.choice(sorted(ctes))
             visible[al] = ctes[name]
             froms.append("%s AS %s" % (name, al))
         elif depth < 2 and u < (0.5 if depth == 0 else 0.2):
-            sub, cols = gen_query(r, depth + 1, ctes)
+            sub, cols = gen_query(r, depth + 1, ctes, collide)
             visible[al] = cols
             froms.append("(%s) AS %s" % (sub, al))
         else:
@@ -696,6 +716,13 @@ def gen_query(rng, depth=0, ctes=None):
             on = "%s = %s" % (mine.col("INT"), prev.col("INT"))
             if r.random() < 0.3:
                 on += " AND " + _QG(r, {**seen, al: visible[al]}).cond(4)
+            if len(seen) >= 2 and r.random() < 0.4:
+                # multi-key join: several conjuncts relating this source to one or two particular earlier sources (which may have
+                # been cross-joined so far: their conjuncts are what optimize_joins moves)
+                pas = r.sample(sorted(seen), r.choice([1, 1, 2]))
+                for _ in range(r.randrange(1, 4)):
+                    pa = r.choice(pas)
+                    on += " AND %s %s %s" % (mine.col("INT"), r.choice(["=", "=", "<", ">"]), _QG(r, {pa: seen[pa]}).col("INT"))
             sql += " %s %s ON %s" % (jt, f, on)
         seen[al] = visible[al]
     u = r.random()
